@@ -219,6 +219,16 @@ def check(tier):
         argvs += [[], ["nofile"], [os.path.join(scratch, "adir")], ["-bogus"], ["-h"], ["-name"], ["-out"], ["-debug=maybe", "x"], ["--", "-x"], ["-"], ["--"],
                   ["-name", "", list(files)[0]], ["-out", "", list(files)[0]], ["-out", "/nonexistent/dir", list(files)[0]], ["-verbose", "-debug", "-help"],
                   ["-version", "-bogus"], ["-name=" + "x" * 5000, list(files)[0]], ["\x01\x02"], ["-name", "a\nb", list(files)[0]]]
+        afile = os.path.join(scratch, "afile")
+        open(afile, "w").write("x")
+        good = os.path.join(scratch, "good.grammar")            # a specification that is accepted: the generator itself is reached
+        open(good, "w").write('grammar good;\nNUM = /[0-9]+/;\nstart = NUM "+" NUM;\n')
+        file_texts[good] = open(good).read()
+        argvs += [["-out", os.path.join(afile, "sub"), good], ["-out", afile, good], ["-out", os.path.join(scratch, "a" * 300), good],
+                  ["-out", os.path.join(scratch, "adir", "..", "adir"), good], ["-out", os.path.join(scratch, "adir") + "/", good],
+                  ["-out", os.path.join(scratch, "adir"), "-name", "n" * 300, good], ["-out", os.path.join(scratch, "adir"), "-name", "x/y", good],
+                  ["-out", os.path.join(scratch, "adir"), good], ["-out", os.path.join(scratch, "adir"), good],       # twice: the package directory exists the second time
+                  [os.path.join(afile, "sub.grammar")], [os.path.join(scratch, "b" * 300)], ["-name", "n" * 300, good]]
         flagpool = ["-out", "-name", "-debug", "-verbose", "-help", "-version", "-x", "--", "-", "=", "-out=", "-name=_", "-debug=0", "-verbose=2", "x y", "é", ""]
         for _ in range(40 if tier == "quick" else 600):
             argvs.append([rng.choice(flagpool + list(files)[:3]) for _ in range(rng.randint(0, 5))])
